@@ -53,7 +53,19 @@ pub fn program(cls: &str, errfile: u64) -> (String, String) {
                 (good_a, "module B\n[deprecated] struct OldB {}\nstruct SB { y: A::SA, o: OldB }\n".to_owned())
             }
         }
-        "clean" | "err_io" => (good_a, good_b),
+        "warn_malformed" | "warn_link" | "warn_incorrect" => {
+            let comment = match cls {
+                "warn_malformed" => "/// See {@linked Nothing} here.\n/// @remarks: no such tag",
+                "warn_link" => "/// See {@link Nothing} here.",
+                _ => "/// @param nope: structs have no parameters",
+            };
+            if errfile == 1 {
+                (format!("module A\n{comment}\nstruct SA {{ x: int32 }}\n"), good_b)
+            } else {
+                (good_a, format!("module B\n{comment}\nstruct SB {{ y: A::SA }}\n"))
+            }
+        }
+        "clean" | "err_io" | "err_io_ext" | "err_io_dir" => (good_a, good_b),
         "big" => {
             let defs: String = (0..4000).map(|k| format!("struct Big{k} {{ a: int32, b: Sequence<string> }}\n")).collect();
             (format!("module A\nstruct SA {{ x: int32 }}\n{defs}"), good_b)
@@ -164,8 +176,20 @@ impl Family for Driver {
         std::fs::write(dir.join("a.slice"), &a).unwrap();
         std::fs::write(dir.join("b.slice"), &b).unwrap();
         let mut argv: Vec<String> = vec![dir.join("a.slice").display().to_string(), dir.join("b.slice").display().to_string()];
-        if cls == "err_io" {
-            argv.push(dir.join("missing.slice").display().to_string());
+        match (cls, errfile) {
+            ("err_io", 1) => argv.push(dir.join("missing.slice").display().to_string()),
+            // a reference directory that does not exist (nothing of the program depends on it)
+            ("err_io", _) => argv.extend(["-R".to_owned(), dir.join("no-such-refs").display().to_string()]),
+            ("err_io_ext", _) => {
+                std::fs::write(dir.join("notes.txt"), "module Notes\n").unwrap();
+                argv.push(dir.join("notes.txt").display().to_string());
+            }
+            ("err_io_dir", _) => {
+                std::fs::create_dir_all(dir.join("srcdir")).unwrap();
+                std::fs::write(dir.join("srcdir/inner.slice"), "module Inner\n").unwrap();
+                argv.push(dir.join("srcdir").display().to_string());
+            }
+            _ => {}
         }
         let dup = case["dup"].as_bool().unwrap_or(false);
         if dup {
